@@ -349,6 +349,8 @@ class EvalArm(Obligation):
             viol_here = False
             if self.limits.get('syntactic'):
                 if out[0] != 'limit': return              # within the budget (whether or not the path is feasible)
+                if not getattr(self, 'limit_is_violation', True):
+                    res['truncated'] = res.get('truncated', 0) + 1; return
                 def small_core_unsat():
                     """is a subset of the path condition made of its small conjuncts already unsatisfiable? (sound: a superset is then unsat too)"""
                     pcs = e.path_condition()
@@ -382,8 +384,8 @@ class EvalArm(Obligation):
                             pass
                 finally:
                     e.solver.set('timeout', e.timeout_ms); e._cur_timeout_ms = e.timeout_ms
-                if rq != z3.sat:
-                    # no model within the quick budget: try the registered boundary witnesses natively before any heavier reasoning
+                if True:
+                    # try the registered boundary witnesses natively before any heavier reasoning (a larger value of the same kind usually shows the loop)
                     w = pool_witness(leaves, native_of, runner)
                     if w is not None:
                         res['confirmed'].append(dict(sexpr=w[0], native='TIMEOUT (no answer within the 5 s watchdog)', profile=profile, what='step limit: ' + str(out[1]), us=w[3],
@@ -400,6 +402,17 @@ class EvalArm(Obligation):
                         res['confirmed'].append(dict(sexpr=w[0], native='TIMEOUT (no answer within the 5 s watchdog)', profile=profile, what='step limit: ' + str(out[1]), us=w[3],
                                                      key='%s|%s|step limit|%s|' % (self.ev, self.kind, profile), obligation=self.name))
                         raise eng_mod.StopExploration()
+                if rq2 == z3.sat:
+                    # a feasible path that needs more counted steps than the budget allows, although this input still returns quickly natively:
+                    # the work grows with the value; reported with the model as the witness (the count is the interpreter's, on the real MIR)
+                    try:
+                        czm = Concretizer(e.solver.model(), runner)
+                        sx, stt, payload, us = native_of(czm)
+                        res['confirmed'].append(dict(sexpr=sx, native='%s after %d us natively; more than %d counted steps (crate calls + loop iterations) on this path' % (stt, us, e.step_limit), profile=profile,
+                                                     what='step limit: ' + str(out[1]), us=us, key='%s|%s|step limit|%s|' % (self.ev, self.kind, profile), obligation=self.name))
+                        raise eng_mod.StopExploration()
+                    except Unsupported:
+                        pass
                 if rq2 != z3.sat:                   # an over-budget path must be really feasible to count
                     res['spurious'] = res.get('spurious', 0) + 1
                     if e.unknowns and len(res['inconclusive']) < 3 and str(e.stats.queries.get('unknown', 0)) != str(res.get('_unk0', 0)):
